@@ -41,10 +41,10 @@ def generate(ck) -> bool:
 
 # --------------------------------------------------------------------------- implementation side
 
-KINDS = ["mem", "lazy", "packed4", "proto", "external", "dup", "mem16", "uint2"]
+KINDS = ["mem", "lazy", "packed4", "proto", "external", "dup", "mem16", "uint2", "misnamed"]
 
 
-def _mk_tensor(ir, kind: str, nelem: int, name: str, rng, workdir: str, dup_pool: list):
+def _mk_tensor(ir, kind: str, nelem: int, name: str, rng, workdir: str, dup_pool: list, uid: str = ""):
     """Return (tensor, expected_bytes, dtype, shape)."""
     import onnx
     from onnx_ir import serde
@@ -55,6 +55,11 @@ def _mk_tensor(ir, kind: str, nelem: int, name: str, rng, workdir: str, dup_pool
         arr = np.array([rng.randrange(256) for _ in range(nelem)], dtype=np.uint8)
         t = ir.Tensor(arr, name=name)
         dup_pool.append(t)
+    elif kind == "misnamed":
+        # the tensor's own name is that of ANOTHER initializer (or none): values are what save must go by
+        arr = np.array([rng.randrange(256) for _ in range(nelem)], dtype=np.uint8)
+        idx = int(uid[1:]) if uid else 0
+        t = ir.Tensor(arr, name=rng.choice([f"w{idx + 1}", f"w{max(idx - 1, 0)}", None, "zzz"]))
     elif kind == "mem16":
         arr = np.array([rng.randrange(65536) for _ in range(nelem)], dtype=np.uint16).view(np.float16)
         t = ir.Tensor(arr, name=name)
@@ -79,23 +84,32 @@ def _mk_tensor(ir, kind: str, nelem: int, name: str, rng, workdir: str, dup_pool
     elif kind == "external":
         arr = np.array([rng.randrange(256) for _ in range(nelem)], dtype=np.uint8)
         pre = rng.randrange(0, 9)
-        fn = f"pre_{name}.bin"
-        with open(os.path.join(workdir, fn), "wb") as f:
+        fn = f"pre_{uid or name}.bin"
+        # pre-existing external data lives beside the model that will be saved (re-save of a loaded model)
+        outdir = os.path.join(workdir, "out")
+        os.makedirs(outdir, exist_ok=True)
+        with open(os.path.join(outdir, fn), "wb") as f:
             f.write(b"\xee" * pre + arr.tobytes() + b"\xdd" * 3)
         t = ir.ExternalTensor(fn, pre, arr.nbytes, ir.DataType.UINT8, shape=ir.Shape([nelem]),
-                              name=name, base_dir=workdir)
+                              name=name, base_dir=outdir)
     else:
         raise AssertionError(kind)
     return t, t.tobytes(), t.dtype, tuple(t.shape)
 
 
-def gen_config(rng, small: bool = False) -> dict:
+def gen_config(rng, small: bool = False, focus: str | None = None) -> dict:
     n = rng.randrange(0, 7 if not small else 4)
     inits = []
     for i in range(n):
         kind = rng.choice(KINDS)
         nelem = rng.choice([0, 1, 2, 3, 5, 8, 13, 64, 300, 4097, 9000] if not small else [0, 1, 3, 8])
-        inits.append({"kind": kind, "nelem": nelem, "sub": rng.random() < 0.25})
+        g = rng.choice([0, 0, 0, 1, 2])
+        name = f"w{i}"
+        # sibling subgraphs (and a subgraph vs the main graph) may legally reuse an initializer name
+        others = [s for s in inits if s["g"] != g and all(t["name"] != s["name"] for t in inits if t["g"] == g)]
+        if others and rng.random() < 0.2:
+            name = rng.choice(others)["name"]
+        inits.append({"kind": kind, "nelem": nelem, "g": g, "name": name})
     cfg = {
         "inits": inits,
         "threshold": rng.choice([0, 0, 1, 4, 16, 256, 5000]),
@@ -103,109 +117,162 @@ def gen_config(rng, small: bool = False) -> dict:
         "alignment": rng.choice([None, None, 1, 512, 4096, 8192, 65536]),
         "align_threshold": rng.choice([0, 1, 16, 300, 1048576]),
         "max_workers": rng.choice([None, 1, 2, 4]),
-        "backend": "raw",
+        "backend": "safetensors" if rng.random() < 0.25 else "raw",
         "naming": rng.choice(["m.data", "w.v1.data", "sub/m.data", "noext", "a.b.c.bin"]),
         "fail_at": None,
+        "resave": None,
         "tseed": rng.randrange(1 << 30),
     }
+    if focus == "aligned-shards":
+        # several tensors per shard, several shards, alignment with a small align_threshold, concurrent writers
+        for s in cfg["inits"]:
+            s["nelem"] = rng.choice([300, 4097, 9000])
+            s["kind"] = rng.choice(["mem", "mem16", "lazy", "proto"])
+        cfg.update(threshold=0, alignment=rng.choice([1, 512, 4096]), align_threshold=rng.choice([0, 1, 16, 300]),
+                   max_shard=rng.choice([20000, 30000, 50000]), max_workers=rng.choice([1, 2, 3, 4, 8]), backend="raw")
+    if focus == "resave" or (focus is None and cfg["backend"] == "raw" and cfg["max_shard"] is None
+                             and rng.random() < 0.3):
+        cfg.update(backend="raw", max_shard=None,
+                   resave={"threshold": rng.choice([0, 4, 16, 256, 5000]), "workers": rng.choice([None, 2])})
     return cfg
 
 
-def run_impl(cfg: dict, workdir: str) -> dict:
-    """Run the real save/load on the configuration; return canonical observations."""
-    import random
+def _key(spec) -> str:
+    return f"{spec['g']}/{spec['name']}"
 
-    import onnx_ir as ir
+
+def _build_model(ir, cfg, workdir):
+    import random
     rng = random.Random(cfg["tseed"])
-    os.makedirs(workdir, exist_ok=True)
     dup_pool: list = []
-    main_inits, sub_inits, expect = [], [], {}
-    objs = []
+    per_graph = {0: [], 1: [], 2: []}
+    expect, objs = {}, []
     for i, spec in enumerate(cfg["inits"]):
-        name = f"w{i}"
-        t, b, dt, shp = _mk_tensor(ir, spec["kind"], spec["nelem"], name, rng, workdir, dup_pool)
-        v = ir.Value(name=name, const_value=t, type=ir.TensorType(dt), shape=ir.Shape(list(shp)))
-        expect[name] = {"bytes": b, "dtype": int(dt), "shape": list(shp), "nbytes": t.nbytes}
-        (sub_inits if spec["sub"] else main_inits).append(v)
+        if "g" not in spec:                      # corpus / known-finding witnesses in the older format
+            spec["g"] = 1 if spec.get("sub") else 0
+            spec["name"] = f"w{i}"
+        t, b, dt, shp = _mk_tensor(ir, spec["kind"], spec["nelem"], spec["name"], rng, workdir, dup_pool, uid=f"u{i}")
+        v = ir.Value(name=spec["name"], const_value=t, type=ir.TensorType(dt), shape=ir.Shape(list(shp)))
+        expect[_key(spec)] = {"bytes": b, "dtype": int(dt), "shape": list(shp), "nbytes": t.nbytes, "kind": spec["kind"]}
+        per_graph[spec["g"]].append(v)
         objs.append((v, t))
-    x = ir.Value(name="x", type=ir.TensorType(ir.DataType.FLOAT), shape=ir.Shape([1]))
+    F = ir.TensorType(ir.DataType.FLOAT)
+    x = ir.Value(name="x", type=F, shape=ir.Shape([1]))
     cond = ir.Value(name="cond", type=ir.TensorType(ir.DataType.BOOL), shape=ir.Shape([]))
-    sub_out = ir.Value(name="so", type=ir.TensorType(ir.DataType.FLOAT), shape=ir.Shape([1]))
-    sub_node = ir.Node("", "Identity", [x], outputs=[sub_out], name="sn")
-    sub = ir.Graph([], [sub_out], nodes=[sub_node], initializers=sub_inits, name="then")
-    sub2_out = ir.Value(name="so2", type=ir.TensorType(ir.DataType.FLOAT), shape=ir.Shape([1]))
-    sub2 = ir.Graph([], [sub2_out], nodes=[ir.Node("", "Identity", [x], outputs=[sub2_out], name="sn2")], name="else")
-    y = ir.Value(name="y", type=ir.TensorType(ir.DataType.FLOAT), shape=ir.Shape([1]))
+    so = ir.Value(name="so", type=F, shape=ir.Shape([1]))
+    sub = ir.Graph([], [so], nodes=[ir.Node("", "Identity", [x], outputs=[so], name="sn")],
+                   initializers=per_graph[1], name="then")
+    so2 = ir.Value(name="so2", type=F, shape=ir.Shape([1]))
+    sub2 = ir.Graph([], [so2], nodes=[ir.Node("", "Identity", [x], outputs=[so2], name="sn2")],
+                    initializers=per_graph[2], name="else")
+    y = ir.Value(name="y", type=F, shape=ir.Shape([1]))
     ifn = ir.Node("", "If", [cond], attributes=[ir.AttrGraph("then_branch", sub), ir.AttrGraph("else_branch", sub2)],
                   outputs=[y], name="if")
-    g = ir.Graph([x, cond], [y], nodes=[ifn], initializers=main_inits, name="g",
-                 opset_imports={"": 20})
-    model = ir.Model(g, ir_version=10)
-    order = [v.name for gr in model.graphs() for v in gr.initializers.values()]
-    sizes = [expect[n]["nbytes"] for n in order]
-    path = os.path.join(workdir, "out", "model.onnx")
+    g = ir.Graph([x, cond], [y], nodes=[ifn], initializers=per_graph[0], name="g", opset_imports={"": 20})
+    return ir.Model(g, ir_version=10), objs, expect
+
+
+def _graph_index(model):
+    """graph object -> 0 (main) / 1 (then) / 2 (else), by graph name"""
+    return {id(gr): {"g": 0, "then": 1, "else": 2}[gr.name] for gr in model.graphs()}
+
+
+def _save(ir, model, cfg, path, threshold, workers, callback=None):
+    if cfg.get("backend") == "safetensors":
+        ir.save_safetensors(model, path, size_threshold_bytes=threshold,
+                            max_shard_size_bytes=cfg["max_shard"], callback=callback)
+    else:
+        ir.save(model, path, external_data=cfg["naming"], size_threshold_bytes=threshold,
+                max_shard_size_bytes=cfg["max_shard"], max_workers=workers,
+                alignment=cfg["alignment"], align_threshold=cfg["align_threshold"], callback=callback)
+
+
+def run_impl(cfg: dict, workdir: str) -> dict:
+    """Run the real save/load (optionally: save, load, save again in place, load) ; canonical observations."""
+    import onnx_ir as ir
     os.makedirs(os.path.join(workdir, "out", "sub"), exist_ok=True)
-    before_ids = [(v.name, id(v.const_value)) for v, _ in objs]
+    model, objs, expect = _build_model(ir, cfg, workdir)
+    gi = _graph_index(model)
+    order = [f"{gi[id(gr)]}/{v.name}" for gr in model.graphs() for v in gr.initializers.values()]
+    sizes = [expect[k]["nbytes"] for k in order]
+    path = os.path.join(workdir, "out", "model.onnx")
     outcome = "ok"
-    kwargs = dict(external_data=cfg["naming"], size_threshold_bytes=cfg["threshold"],
-                  max_shard_size_bytes=cfg["max_shard"], max_workers=cfg["max_workers"],
-                  alignment=cfg["alignment"], align_threshold=cfg["align_threshold"])
+    callback = None
     fail_at = cfg.get("fail_at")
     if fail_at is not None:
         calls = {"n": 0}
 
-        def cb(tensor, info):
+        def callback(tensor, info):
             if calls["n"] == fail_at:
                 raise RuntimeError("injected")
             calls["n"] += 1
-        kwargs["callback"] = cb
+    threshold = cfg["threshold"]
     try:
-        ir.save(model, path, **kwargs)
+        _save(ir, model, cfg, path, threshold, cfg["max_workers"], callback)
     except Exception as e:  # noqa: BLE001
         outcome = "raise:" + type(e).__name__
-    after_ids = [(v.name, id(v.const_value)) for v, _ in objs]
-    obs = {"order": order, "sizes": sizes, "outcome": outcome, "restored": before_ids == after_ids,
-           "same_objects": all(v.const_value is t for v, t in objs)}
+    same = all(v.const_value is t for v, t in objs)
+    obs = {"order": order, "sizes": sizes, "outcome": outcome, "restored": same, "same_objects": same,
+           "dup_names_across_graphs": len({k.split("/", 1)[1] for k in order}) < len(order),
+           "threshold_used": threshold}
     if outcome != "ok":
         return obs
     loaded = ir.load(path)
+    if cfg.get("resave"):
+        # re-save the loaded model in place (same model path, same data path): its external tensors live in
+        # the very file that is being replaced
+        threshold = cfg["resave"]["threshold"]
+        objs2 = [(v, v.const_value) for gr in loaded.graphs() for v in gr.initializers.values()]
+        try:
+            _save(ir, loaded, cfg, path, threshold, cfg["resave"]["workers"])
+        except Exception as e:  # noqa: BLE001
+            obs["outcome"] = "raise2:" + type(e).__name__
+        same2 = all(v.const_value is t for v, t in objs2)
+        obs["restored"] = obs["restored"] and same2
+        obs["same_objects"] = obs["same_objects"] and same2
+        obs["threshold_used"] = threshold
+        if obs["outcome"] != "ok":
+            return obs
+        loaded = ir.load(path)
+    gi2 = _graph_index(loaded)
     files: dict[str, list] = {}
     rb = {}
     for gr in loaded.graphs():
         for name, v in gr.initializers.items():
+            key = f"{gi2[id(gr)]}/{name}"
             t = v.const_value
             ent = {"external": isinstance(t, ir.ExternalTensor), "dtype": int(t.dtype), "shape": list(t.shape)}
             if isinstance(t, ir.ExternalTensor):
                 ent.update(location=str(t.location), offset=t.offset, length=t.length)
-                files.setdefault(str(t.location), []).append([t.offset, t.length])
+                if not str(t.location).startswith("pre_"):
+                    files.setdefault(str(t.location), []).append([t.offset, t.length])
             try:
-                ent["bytes_ok"] = t.tobytes() == expect[name]["bytes"]
+                ent["bytes_ok"] = t.tobytes() == expect[key]["bytes"]
             except Exception as e:  # noqa: BLE001
                 ent["bytes_ok"] = False
                 ent["read_error"] = type(e).__name__
-            rb[name] = ent
-    obs["loaded_order"] = [n for gr in loaded.graphs() for n in gr.initializers]
+            rb[key] = ent
+    obs["loaded_order"] = [f"{gi2[id(gr)]}/{n}" for gr in loaded.graphs() for n in gr.initializers]
     obs["loaded"] = rb
-    # data files actually present (besides the model and the pre-existing inputs)
     outdir = os.path.join(workdir, "out")
     present = {}
     for root, _, fs in os.walk(outdir):
         for fn in fs:
             p = os.path.relpath(os.path.join(root, fn), outdir)
-            if p != "model.onnx":
+            if p != "model.onnx" and not fn.startswith("pre_") and not fn.endswith(".index.json"):
                 present[p] = os.path.getsize(os.path.join(root, fn))
     obs["data_files"] = present
     obs["ranges_by_file"] = files
-    # file bytes at every recorded range
     ok_ranges = True
-    for name, ent in rb.items():
+    for key, ent in rb.items():
         if ent["external"]:
             with open(os.path.join(outdir, ent["location"]), "rb") as f:
                 f.seek(ent["offset"])
-                if f.read(ent["length"]) != expect[name]["bytes"]:
+                if f.read(ent["length"]) != expect[key]["bytes"]:
                     ok_ranges = False
     obs["file_bytes_ok"] = ok_ranges
-    obs["expect"] = {n: {"dtype": e["dtype"], "shape": e["shape"], "nbytes": e["nbytes"]} for n, e in expect.items()}
+    obs["expect"] = {n: {"dtype": e["dtype"], "shape": e["shape"], "nbytes": e["nbytes"], "kind": e["kind"]}
+                     for n, e in expect.items()}
     return obs
 
 
@@ -217,21 +284,30 @@ def oracle(cfg: dict, obs: dict) -> list[str]:
     if not obs["restored"] or not obs["same_objects"]:
         bad.append("model passed to save does not hold the same tensor objects afterwards")
     if obs["outcome"] != "ok":
-        if cfg.get("fail_at") is None and not obs["outcome"].startswith("raise:FileExistsError"):
+        documented = obs["outcome"].endswith(":FileExistsError") or (
+            # safetensors documents: all initializer names across subgraphs must be unique
+            cfg.get("backend") == "safetensors" and obs.get("dup_names_across_graphs")
+            and obs["outcome"] == "raise:ValueError")
+        if cfg.get("fail_at") is None and not documented:
             bad.append(f"save raised {obs['outcome']} on a valid configuration")
         return bad
     exp = obs["expect"]
     if sorted(obs["loaded_order"]) != sorted(obs["order"]):
         bad.append("initializer names differ after load")
-    al = cfg["alignment"]
+    st = cfg.get("backend") == "safetensors"
+    al = None if st else cfg["alignment"]
     for name, ent in obs["loaded"].items():
         e = exp[name]
         if ent["dtype"] != e["dtype"] or ent["shape"] != e["shape"]:
             bad.append(f"{name}: dtype/shape changed")
         if not ent["bytes_ok"]:
             bad.append(f"{name}: bytes differ after save/load ({ent.get('read_error', 'content')})")
-        if ent["external"] != (e["nbytes"] > cfg["threshold"]):
-            bad.append(f"{name}: external={ent['external']} but nbytes={e['nbytes']} threshold={cfg['threshold']}")
+        st = cfg.get("backend") == "safetensors"
+        # raw backend: external iff nbytes > threshold; safetensors documents "not smaller than" (>=)
+        thr_used = obs.get("threshold_used", cfg["threshold"])
+        want_ext = (e["nbytes"] >= thr_used) if st else (e["nbytes"] > thr_used)
+        if ent["external"] != want_ext:
+            bad.append(f"{name}: external={ent['external']} but nbytes={e['nbytes']} threshold={thr_used}")
     if not obs["file_bytes_ok"]:
         bad.append("a recorded byte range does not hold the tensor's bytes")
     for loc, ranges in obs["ranges_by_file"].items():
@@ -240,7 +316,9 @@ def oracle(cfg: dict, obs: dict) -> list[str]:
             bad.append(f"data file {loc} missing")
             continue
         end = 0
-        for off, ln in ranges:
+        # inside a safetensors file the byte layout (order of tensors) is chosen by the safetensors
+        # library, so only non-overlap / containment are required there
+        for off, ln in (sorted(ranges) if st else ranges):
             if off < end:
                 bad.append(f"{loc}: ranges overlap or are out of declaration order")
             if off + ln > size:
@@ -248,7 +326,8 @@ def oracle(cfg: dict, obs: dict) -> list[str]:
             if al is not None and ln > cfg["align_threshold"] and off % max(4096, al) != 0:
                 bad.append(f"{loc}: offset {off} not aligned")
             end = off + ln
-        if cfg["max_shard"] is not None and size > cfg["max_shard"] and len(ranges) > 1:
+        payload = sum(ln for _, ln in ranges) if st else size   # safetensors: limit is on tensor bytes (header excluded)
+        if cfg["max_shard"] is not None and payload > cfg["max_shard"] and len(ranges) > 1:
             bad.append(f"{loc}: shard of {len(ranges)} tensors exceeds the limit")
     return bad
 
@@ -263,7 +342,7 @@ def _case_term(cfg, obs) -> str:
         files.append(cpair(cZ(obs["data_files"][loc]),
                            clist(cpair(cZ(o), cZ(n)) for o, n in obs["ranges_by_file"].get(loc, []))))
     return "(" + ", ".join([
-        clist(cZ(s) for s in obs["sizes"]), cZ(cfg["threshold"]), copt(cfg["max_shard"], cZ),
+        clist(cZ(s) for s in obs["sizes"]), cZ(obs.get("threshold_used", cfg["threshold"])), copt(cfg["max_shard"], cZ),
         copt(cfg["alignment"], cZ), cZ(cfg["align_threshold"]), clist(files)]) + ")"
 
 
@@ -285,6 +364,30 @@ def correspondence(ck, cases: list[tuple[dict, dict]]) -> list[int]:
         "  list_eqb filedesc_eqb (predict_files sizes threshold ms al thr) files.\n"
         "Eval vm_compute in (failing agree cases).\n")
     return ck.coq_failing(text, "cases_save")
+
+
+def correspondence_st(ck, cases) -> list[int]:
+    """safetensors backend: the grouping of tensors into shard files (sizes per file, in declaration order)
+    must be Model.st_shard of the tensors with nbytes >= threshold."""
+    terms = []
+    for cfg, obs in cases:
+        by_file: dict[str, list[int]] = {}
+        for name in obs["order"]:
+            ent = obs["loaded"][name]
+            if ent["external"] and not ent["location"].startswith("pre_"):
+                by_file.setdefault(ent["location"], []).append(obs["expect"][name]["nbytes"])
+        groups = [by_file[k] for k in sorted(by_file)]
+        terms.append("(" + ", ".join([clist(cZ(x) for x in obs["sizes"]), cZ(cfg["threshold"]),
+                                      copt(cfg["max_shard"], cZ),
+                                      clist(clist(cZ(x) for x in g) for g in groups)]) + ")")
+    text = CASE_HEADER + (
+        "Definition cases : list (list Z * Z * option Z * list (list Z)) :=\n  " + clist(terms) + ".\n"
+        "Definition agree (c : list Z * Z * option Z * list (list Z)) : bool :=\n"
+        "  let '(sizes, threshold, ms, groups) := c in\n"
+        "  let ext := filter (fun n => threshold <=? n) sizes in\n"
+        "  list_eqb (list_eqb Z.eqb) (match ext with [] => [] | _ => st_shard (fun x => x) ext ms end) groups.\n"
+        "Eval vm_compute in (failing agree cases).\n")
+    return ck.coq_failing(text, "cases_st")
 
 
 def correspondence_align(ck) -> list[dict]:
@@ -394,17 +497,21 @@ def replay_known(ck) -> None:
 
 
 def is_known(ck, cfg: dict, bad: list[str]) -> str | None:
-    """Map a failing configuration to a known-finding key (by site), else None."""
-    kinds = {s["kind"] for s in cfg["inits"]}
+    """Map a failing configuration to a known-finding key, else None.  A finding's `site` names the
+    initializer kind (and backend, and a fragment of the failure text) it is about; a failure is attributed
+    to it only if EVERY failure line concerns an initializer of that kind on that backend with that text."""
     for k in ck._known:
         if k.get("status") != "known":
             continue
         site = k.get("site", {})
-        if site.get("kind") in kinds and all(site.get("message_contains", "") in b or True for b in bad):
-            # only failures attributable to initializers of that kind
-            names = {f"w{i}" for i, s in enumerate(cfg["inits"]) if s["kind"] == site["kind"]}
-            if all(b.split(":")[0] in names for b in bad):
-                return k["key"]
+        if not isinstance(site, dict):
+            continue
+        if site.get("backend") and cfg.get("backend", "raw") != site["backend"]:
+            continue
+        names = {_key(s) for s in cfg["inits"] if "g" in s and s["kind"] == site.get("kind")}
+        frag = site.get("message_contains", "")
+        if names and all(b.split(":")[0] in names and frag in b for b in bad):
+            return k["key"]
     return None
 
 
@@ -420,7 +527,7 @@ def run(ck) -> None:
     ck.assumptions += ["little-endian POSIX platform", "numpy/onnx as installed in /venv"]
     ok_gen = generate(ck)
     ck.prove()
-    n_cases = 120 if not ck.thorough else 2500
+    n_cases = 300 if not ck.thorough else 4000
     # 1. function-level grids (translator validation + shard models)
     try:
         fn_mis = correspondence_align(ck)
@@ -438,7 +545,8 @@ def run(ck) -> None:
             with open(os.path.join(corpus_dir, fn)) as f:
                 cfgs.append(json.load(f))
     for i in range(n_cases):
-        cfgs.append(gen_config(ck.rng, small=(i % 3 == 0)))
+        focus = {1: "aligned-shards", 2: "resave"}.get(i % 5)
+        cfgs.append(gen_config(ck.rng, small=(i % 3 == 0), focus=focus))
     oracle_failures = []
     for i, cfg in enumerate(cfgs):
         wd = os.path.join(ck.scratch, f"case{i}")
@@ -448,6 +556,10 @@ def run(ck) -> None:
         ck.hist("outcomes", obs["outcome"])
         for s in cfg["inits"]:
             ck.hist("initializer_kinds", s["kind"])
+        ck.hist("features", "resave" if cfg.get("resave") else "single-save")
+        ck.hist("features", cfg.get("backend", "raw"))
+        if obs.get("dup_names_across_graphs"):
+            ck.hist("features", "same-name-in-two-graphs")
         bad = oracle(cfg, obs)
         if bad:
             oracle_failures.append((cfg, obs, bad))
@@ -463,6 +575,8 @@ def run(ck) -> None:
         cfg = gen_config(ck.rng, small=True)
         cfg["threshold"] = 0
         cfg["max_workers"] = None
+        cfg["resave"] = None
+        cfg["backend"] = "raw"
         nb = sum(1 for s in cfg["inits"] if s["nelem"] > 0)
         for k in range(nb + 1):
             c2 = dict(cfg, fail_at=k)
@@ -477,6 +591,17 @@ def run(ck) -> None:
             if obs["outcome"] != "ok":
                 ck.nontriv(("fault", c2))
     ck.coverage["traces_validated_against_impl"] = len(cases)
+    st_cases = [(c, o) for c, o in cases if c.get("backend") == "safetensors"]
+    cases = [(c, o) for c, o in cases if c.get("backend") != "safetensors"]
+    try:
+        st_mis = correspondence_st(ck, st_cases) if st_cases else []
+    except RuntimeError as e:
+        st_mis = []
+        ck.broken("correspondence:st_predict", str(e))
+    for i in st_mis[:5]:
+        cfg, obs = st_cases[i]
+        ck.broken("correspondence:st_predict", json.dumps({"config": cfg, "sizes": obs["sizes"],
+                                                           "impl_ranges": obs["ranges_by_file"]}, default=str))
     try:
         mism = correspondence(ck, cases) if cases else []
     except RuntimeError as e:
@@ -532,18 +657,25 @@ def shrink(cfg: dict, ck) -> dict:
             if fails(c2):
                 cur, changed = c2, True
                 break
-        for key, val in (("max_shard", None), ("alignment", None), ("max_workers", None), ("naming", "m.data")):
+        for key, val in (("max_shard", None), ("alignment", None), ("max_workers", None), ("naming", "m.data"),
+                         ("backend", "raw")):
             if cur[key] != val:
                 c2 = dict(cur, **{key: val})
                 if fails(c2):
                     cur, changed = c2, True
         for s in cur["inits"]:
-            if s["sub"]:
-                s["sub"] = False
-                if not fails(cur):
-                    s["sub"] = True
+            if s.get("g"):
+                old = s["g"]
+                s["g"] = 0
+                if len({t["name"] for t in cur["inits"] if t["g"] == 0}) < sum(1 for t in cur["inits"] if t["g"] == 0) \
+                        or not fails(cur):
+                    s["g"] = old
                 else:
                     changed = True
+        if cur.get("resave"):
+            c2 = dict(cur, resave=None)
+            if fails(c2):
+                cur, changed = c2, True
     return cur
 
 
